@@ -39,6 +39,7 @@ def gen_case(rng, tier, idx):
     case = E.gen_engine_case(rng, tier, fault_rate=0.2)
     if rng.random() < 0.15 and not E.has_second_phase(case):
         case["enable_via_config"] = rng.choice(["default-off", "default-on"])
+        case["config_before_first_evaluation"] = rng.random() < 0.5
     return case
 
 
@@ -51,11 +52,24 @@ def run_config_case(spec, ctx):
     all_on = copy.deepcopy(spec["graph"])
     for nd in all_on["nodes"]:
         nd["enabled"] = True
-    r1 = E.execute(spec, spec=all_on)
     saved, snapshot = dr.ENABLED, dict(dr.ENABLED)
+    first = spec.get("config_before_first_evaluation")
+    if first:
+        # the usual start-up order: components are loaded, the configuration is applied, then the first evaluation runs -
+        # no component has been looked at before, so none has an entry of its own in dr.ENABLED
+        group = ("grp_%s" % spec["graph"].get("tag", "x")) if spec["entry"]["form"] == "group" else None
+        b0 = G.build(all_on, group=group)
+
+        class R1(object):
+            built = b0
+        r1 = R1()
+        ctx.count("configurations_applied_before_the_first_evaluation")
+    else:
+        r1 = E.execute(spec, spec=all_on)
     try:
-        for mech, wit in E.oracle_c02(r1):
-            ctx.violation(mech, dict(wit, evaluation="before the configuration was applied"))
+        if not first:
+            for mech, wit in E.oracle_c02(r1):
+                ctx.violation(mech, dict(wit, evaluation="before the configuration was applied"))
         b = r1.built
         default = spec["enable_via_config"] == "default-off"
         nodes = spec["graph"]["nodes"]
@@ -67,7 +81,8 @@ def run_config_case(spec, ctx):
                    "configs": [{"name": dr.get_name(b.comps[i]), "enabled": False} for i, nd in enumerate(nodes) if not nd["enabled"]]}
         insights.apply_default_enabled(cfg)
         insights.apply_configs(cfg)
-        ctx.count("configurations_applied_after_a_first_evaluation")
+        if not first:
+            ctx.count("configurations_applied_after_a_first_evaluation")
         r2 = E.execute(spec, built=b, spec=spec["graph"])
         for mech, wit in E.oracle_c02(r2):
             ctx.violation(mech, dict(wit, evaluation="after apply_default_enabled/apply_configs", default_component_enabled=not default))
